@@ -35,6 +35,9 @@ type Opt struct {
 	Comments     bool // include Doc / Comment groups attached to nodes
 	SortImports  bool // order the specs of import declarations by (path, name): tree "modulo import order"
 	MergeImports bool // all leading import declarations are dumped as ONE declaration (with SortImports: sorted + deduplicated view)
+	NoImports    bool // leave the import declarations out (they are compared separately, run by run)
+	StripParens  bool // drop the parentheses both printers drop: around if/for/switch/range clause expressions (unless they protect a composite literal) and around parameter/result types
+	DropEmpty    bool // drop empty statements from statement lists (both printers skip them)
 }
 
 var (
@@ -44,8 +47,52 @@ var (
 	objType    = reflect.TypeOf((*ast.Object)(nil))
 	scopeType  = reflect.TypeOf((*ast.Scope)(nil))
 	semanticPo = map[string]bool{"CallExpr.Ellipsis": true, "TypeSpec.Assign": true}
-	skipFile   = map[string]bool{"Scope": true, "Imports": true, "Unresolved": true, "Comments": true, "Package": true}
+	skipFile   = map[string]bool{"W2Mode": true, "EmbedMap": true, "Scope": true, "Imports": true, "Unresolved": true, "Comments": true, "Package": true}
 )
+
+var (
+	stmtListType = reflect.TypeOf([]ast.Stmt(nil))
+	ctlExpr      = map[string]bool{"IfStmt.Cond": true, "ForStmt.Cond": true, "SwitchStmt.Tag": true, "RangeStmt.X": true}
+)
+
+// StripParens mirrors printer.stripParens (nodes.go) / w2printer.stripParens.
+func StripParens(x ast.Expr) ast.Expr {
+	if px, strip := x.(*ast.ParenExpr); strip {
+		ast.Inspect(px.X, func(node ast.Node) bool {
+			switch x := node.(type) {
+			case *ast.ParenExpr:
+				return false
+			case *ast.CompositeLit:
+				if isTypeName(x.Type) {
+					strip = false
+				}
+				return false
+			}
+			return true
+		})
+		if strip {
+			return StripParens(px.X)
+		}
+	}
+	return x
+}
+
+func isTypeName(x ast.Expr) bool {
+	switch t := x.(type) {
+	case *ast.Ident:
+		return true
+	case *ast.SelectorExpr:
+		return isTypeName(t.X)
+	}
+	return false
+}
+
+func stripParensAlways(x ast.Expr) ast.Expr {
+	if x, ok := x.(*ast.ParenExpr); ok {
+		return stripParensAlways(x.X)
+	}
+	return x
+}
 
 func hx(s string) string {
 	if s == "" {
@@ -123,12 +170,15 @@ func (d *dumper) value(v reflect.Value, owner string) {
 		} else {
 			d.atom("B:0")
 		}
-	default:
+	case reflect.Int, reflect.Int8, reflect.Int16, reflect.Int32, reflect.Int64:
 		if v.Type() == tokType {
 			d.atom("T:" + owner + ":" + strconv.Itoa(int(v.Int())))
 			return
 		}
 		d.atom("V:" + strconv.FormatInt(v.Int(), 10))
+	default:
+		// maps, funcs, ...: derived data (scopes, embed tables), not part of the syntax tree
+		d.atom("nil")
 	}
 }
 
@@ -168,8 +218,44 @@ func (d *dumper) node(v reflect.Value) {
 		case name == "File" && f.Name == "Decls" && (d.opt.SortImports || d.opt.MergeImports):
 			d.decls(fv.Interface().([]ast.Decl))
 			continue
+		case d.opt.NoImports && name == "File" && f.Name == "Decls":
+			d.atom("[")
+			for _, dd := range fv.Interface().([]ast.Decl) {
+				if g, ok := dd.(*ast.GenDecl); ok && isImport(g) {
+					continue
+				}
+				d.value(reflect.ValueOf(dd), key)
+			}
+			d.atom("]")
+			continue
+		case d.opt.StripParens && ctlExpr[key]:
+			if e, ok := fv.Interface().(ast.Expr); ok && e != nil {
+				d.value(reflect.ValueOf(StripParens(e)), key)
+				continue
+			}
+		case d.opt.StripParens && key == "Field.Type":
+			if e, ok := fv.Interface().(ast.Expr); ok && e != nil {
+				d.value(reflect.ValueOf(stripParensAlways(e)), key)
+				continue
+			}
+		case d.opt.DropEmpty && f.Type == stmtListType:
+			d.atom("[")
+			for _, st := range fv.Interface().([]ast.Stmt) {
+				if _, isEmpty := st.(*ast.EmptyStmt); isEmpty {
+					continue
+				}
+				d.value(reflect.ValueOf(st), key)
+			}
+			d.atom("]")
+			continue
 		case name == "EmptyStmt" && f.Name == "Implicit":
 			continue // ";" written or implied by a newline: layout, not structure
+		case name == "FuncType" && f.Name == "Results":
+			// `func f` (no parentheses) gives an empty result list, `func f()` gives nil: both mean "no results"
+			if fl, _ := fv.Interface().(*ast.FieldList); fl != nil && len(fl.List) == 0 {
+				d.atom("nil")
+				continue
+			}
 		}
 		d.value(fv, key)
 	}
